@@ -772,10 +772,13 @@ func checkIRE(r *Report, a *Analysis, sc *Scope, rule string) {
 					continue
 				}
 				for _, res := range ret.Results {
-					if ex, ok := Resolve(res).(*ssa.Extract); ok {
-						if c, ok := ex.Tuple.(*ssa.Call); ok {
-							if scf := c.Call.StaticCallee(); scf != nil && p.InModule(scf) && sameSig(scf, fn) {
-								work = append(work, scf)
+					// (through the result variables of a single-exit function: the phi's alternatives)
+					for _, leaf := range phiLeaves(Resolve(res), 0) {
+						if ex, ok := leaf.(*ssa.Extract); ok {
+							if c, ok := ex.Tuple.(*ssa.Call); ok {
+								if scf := c.Call.StaticCallee(); scf != nil && p.InModule(scf) && sameSig(scf, fn) {
+									work = append(work, scf)
+								}
 							}
 						}
 					}
@@ -811,37 +814,84 @@ func checkIRE(r *Report, a *Analysis, sc *Scope, rule string) {
 			if len(ret.Results) != 2 {
 				continue
 			}
-			av, ev := Resolve(ret.Results[0]), Resolve(ret.Results[1])
-			cons := fmt.Sprintf("%s: return (%s, %s)", p.FnName(fn), fc.AP(av), fc.AP(ev))
-			pos := p.InstrPos(ret)
-			switch {
-			case isNilConst(ev):
-				// success: assertion provably non-nil
-				if nonNilAssertion(fc, ret.Block(), av, inFamily) {
-					r.OK(rule, cons, pos, "success return with a provably non-nil assertion")
-				} else {
-					r.Bad(rule, cons, pos, "nil error returned with an assertion that is not provably non-nil")
+			// a single exit that returns result variables (named results, accumulate-then-return): each way of reaching it
+			// is judged as the return it stands for - the pair of values the two variables hold on that edge
+			for _, alt := range returnPairAlternatives(Resolve(ret.Results[0]), Resolve(ret.Results[1]), ret.Block(), 0) {
+				av, ev := alt.av, alt.ev
+				retBlock := alt.blk
+				cons := fmt.Sprintf("%s: return (%s, %s)", p.FnName(fn), fc.AP(av), fc.AP(ev))
+				pos := p.InstrPos(ret)
+				switch {
+				case isNilConst(ev):
+					// success: assertion provably non-nil
+					under := fc.Cond(retBlock)
+				if alt.from != nil {
+					under = a.B.And(under, fc.edgeCond(retBlock, alt.from))
 				}
-			case isNilConst(av):
-				if forwardsOnly {
-					r.Trivial(rule, cons, pos, "internal helper: its error is wrapped by the caller")
-					continue
-				}
-				if isIREValue(fc, ret.Block(), ev, ire, inFamily) {
-					r.OK(rule, cons, pos, "nil assertion with an *InvalidResponseError whose PrivateErr is set (or a family callee's error under err != nil)")
-				} else {
-					r.Bad(rule, cons, pos, "error returned to the caller is not provably an *InvalidResponseError with a non-nil value")
-				}
-			default:
-				// (v, err) forwarded from a family callee
-				if fwd := forwardedPair(av, ev, inFamily); fwd {
-					r.OK(rule, cons, pos, "both results forwarded from a callee of the family")
-				} else {
-					r.Bad(rule, cons, pos, "return is neither (nil, error) nor (assertion, nil) nor a forwarded pair")
+				if nonNilAssertionUnder(fc, under, av, inFamily, 0) {
+						r.OK(rule, cons, pos, "success return with a provably non-nil assertion")
+					} else {
+						r.Bad(rule, cons, pos, "nil error returned with an assertion that is not provably non-nil")
+					}
+				case isNilConst(av):
+					if forwardsOnly {
+						r.Trivial(rule, cons, pos, "internal helper: its error is wrapped by the caller")
+						continue
+					}
+					if isIREValue(fc, retBlock, ev, ire, inFamily) {
+						r.OK(rule, cons, pos, "nil assertion with an *InvalidResponseError whose PrivateErr is set (or a family callee's error under err != nil)")
+					} else {
+						r.Bad(rule, cons, pos, "error returned to the caller is not provably an *InvalidResponseError with a non-nil value")
+					}
+				default:
+					// (v, err) forwarded from a family callee
+					if fwd := forwardedPair(av, ev, inFamily); fwd {
+						r.OK(rule, cons, pos, "both results forwarded from a callee of the family")
+					} else {
+						r.Bad(rule, cons, pos, "return is neither (nil, error) nor (assertion, nil) nor a forwarded pair")
+					}
 				}
 			}
 		}
 	}
+}
+
+type retPairAlt struct {
+	av, ev ssa.Value
+	blk    *ssa.BasicBlock
+	from   *ssa.BasicBlock // when split: the block the edge leads to (nil for the return as written)
+}
+
+// returnPairAlternatives: the (value, error) pairs a return of two result variables stands for. When either result is
+// a phi, the pair is split by incoming edge: two phis of one block are read edge by edge together (they were assigned
+// on the same paths), a lone phi against the other value as it is. Nested up to a small depth; the block of an
+// alternative is the predecessor the edge comes from (its facts hold for the pair).
+func returnPairAlternatives(av, ev ssa.Value, blk *ssa.BasicBlock, depth int) []retPairAlt {
+	pa, okA := av.(*ssa.Phi)
+	pe, okE := ev.(*ssa.Phi)
+	// only the variables merged at this very block: a phi made further up reaches here under the conditions tested in
+	// between (if err != nil { return nil, err }), which an edge-by-edge reading would forget
+	okA = okA && pa.Block() == blk
+	okE = okE && pe.Block() == blk
+	if depth > 6 || (!okA && !okE) {
+		return []retPairAlt{{av, ev, blk, nil}}
+	}
+	var out []retPairAlt
+	for i, pred := range blk.Preds {
+		a2, e2 := av, ev
+		if okA {
+			a2 = Resolve(pa.Edges[i])
+		}
+		if okE {
+			e2 = Resolve(pe.Edges[i])
+		}
+		if _, jump := pred.Instrs[len(pred.Instrs)-1].(*ssa.Jump); jump {
+			out = append(out, returnPairAlternatives(a2, e2, pred, depth+1)...)
+		} else {
+			out = append(out, retPairAlt{a2, e2, pred, blk})
+		}
+	}
+	return out
 }
 
 func sameSig(a, b *ssa.Function) bool {
@@ -897,6 +947,13 @@ func forwardedPair(av, ev ssa.Value, fam map[*ssa.Function]bool) bool {
 }
 
 func nonNilAssertion(fc *FuncCtx, b *ssa.BasicBlock, av ssa.Value, fam map[*ssa.Function]bool) bool {
+	return nonNilAssertionUnder(fc, fc.Cond(b), av, fam, 0)
+}
+
+// nonNilAssertionUnder: av is non-nil whenever cond holds. A phi is read alternative by alternative, each under the
+// condition of its own edge as well (an alternative whose edge contradicts cond was not taken: the paths on which the
+// result variable stayed nil are the ones that set the error tested before the return).
+func nonNilAssertionUnder(fc *FuncCtx, cond *bddNode, av ssa.Value, fam map[*ssa.Function]bool, depth int) bool {
 	B := fc.A.B
 	switch x := av.(type) {
 	case *ssa.Alloc, *ssa.IndexAddr, *ssa.FieldAddr:
@@ -906,18 +963,78 @@ func nonNilAssertion(fc *FuncCtx, b *ssa.BasicBlock, av ssa.Value, fam map[*ssa.
 			if scf := c.Call.StaticCallee(); scf != nil && fam[scf] {
 				// under err == nil of the same call
 				name := "isnil(" + fc.AP(c) + "#1)"
-				return B.HasVar(name) && fc.Implied(b, B.Var(name))
+				return B.HasVar(name) && B.Implies(cond, B.Var(name))
 			}
 		}
 	case *ssa.Phi:
-		for _, e := range x.Edges {
-			if !nonNilAssertion(fc, b, e, fam) {
+		if depth > 4 {
+			return false
+		}
+		for i, e := range x.Edges {
+			pred := x.Block().Preds[i]
+			under := B.And(cond, B.And(fc.Cond(pred), fc.edgeCond(pred, x.Block())))
+			if under == B.False {
+				continue
+			}
+			if !nonNilAssertionUnder(fc, under, Resolve(e), fam, depth+1) {
 				return false
 			}
 		}
 		return true
 	}
 	return fc.NonNil(av) == B.True
+}
+
+// siblingNilErrorPhi: an error-typed phi of the same block as x whose being nil is implied at b.
+func siblingNilErrorPhi(fc *FuncCtx, b *ssa.BasicBlock, x *ssa.Phi) *ssa.Phi {
+	B := fc.A.B
+	for _, in := range x.Block().Instrs {
+		ph, ok := in.(*ssa.Phi)
+		if !ok {
+			break
+		}
+		if ph == x || types.TypeString(ph.Type(), nil) != "error" {
+			continue
+		}
+		name := "isnil(" + fc.AP(ph) + ")"
+		if B.HasVar(name) && fc.Implied(b, B.Var(name)) {
+			return ph
+		}
+	}
+	return nil
+}
+
+// provablyNonNilError: the error value on this edge cannot be nil: a freshly made error, a wrapped concrete value, or a
+// variable tested non-nil on the way.
+func provablyNonNilError(fc *FuncCtx, b *ssa.BasicBlock, v ssa.Value) bool {
+	B := fc.A.B
+	switch x := v.(type) {
+	case *ssa.MakeInterface:
+		return true
+	case *ssa.Call:
+		if sc := x.Call.StaticCallee(); sc != nil && (sc.String() == "fmt.Errorf" || sc.String() == "errors.New") {
+			return true
+		}
+	case *ssa.Const:
+		return false
+	}
+	name := "isnil(" + fc.AP(v) + ")"
+	return B.HasVar(name) && fc.Implied(b, B.Not(B.Var(name)))
+}
+
+// samePairOfFamilyCall: av and ev are the two results of one call of a function of the family.
+func samePairOfFamilyCall(av, ev ssa.Value, fam map[*ssa.Function]bool) bool {
+	xa, ok1 := av.(*ssa.Extract)
+	xe, ok2 := ev.(*ssa.Extract)
+	if !ok1 || !ok2 || xa.Tuple != xe.Tuple || xa.Index != 0 || xe.Index != 1 {
+		return false
+	}
+	c, ok := xa.Tuple.(*ssa.Call)
+	if !ok {
+		return false
+	}
+	sc := c.Call.StaticCallee()
+	return sc != nil && fam[sc]
 }
 
 func isIREValue(fc *FuncCtx, b *ssa.BasicBlock, ev ssa.Value, ire *types.Named, fam map[*ssa.Function]bool) bool {
@@ -940,6 +1057,32 @@ func isIREValue(fc *FuncCtx, b *ssa.BasicBlock, ev ssa.Value, ire *types.Named, 
 					if bb == b || bb.Dominates(b) {
 						return true
 					}
+				}
+			}
+			// set in one of several branches and tested afterwards: `if retErr.PrivateErr != nil { return nil, retErr }`:
+			// reaching the return implies that one of the assignments executed
+			some := B.False
+			for _, bb := range fc.Fn.Blocks {
+				for _, in := range bb.Instrs {
+					st, ok := in.(*ssa.Store)
+					if !ok {
+						continue
+					}
+					fa, ok := st.Addr.(*ssa.FieldAddr)
+					if !ok || capturedValue(fa.X) != ssa.Value(al) || fieldName(fa.X.Type(), fa.Field) != "PrivateErr" {
+						continue
+					}
+					if bb != b && blockReaches(bb, b) && !blockReaches(b, bb) && B.Implies(fc.Cond(bb), fc.NonNil(st.Val)) {
+						some = B.Or(some, fc.Cond(bb))
+					}
+				}
+			}
+			if some != B.False && fc.Implied(b, some) {
+				return true
+			}
+			for _, nm := range B.Support(fc.Cond(b)) {
+				if strings.HasPrefix(nm, "isnil(") && strings.HasSuffix(nm, ".PrivateErr)") && fc.Implied(b, B.Not(B.Var(nm))) {
+					return true
 				}
 			}
 			return false
@@ -1085,9 +1228,9 @@ func checkCertMatch(r *Report, sc *Scope, rule string) {
 		for _, b := range fn.Blocks {
 			for _, in := range b.Instrs {
 				if c, ok := in.(*ssa.Call); ok {
-					if scf := c.Call.StaticCallee(); scf != nil && strings.HasSuffix(scf.String(), "etree.Element).FindElement") {
+					if scf := c.Call.StaticCallee(); scf != nil && (strings.HasSuffix(scf.String(), "etree.Element).FindElement") || strings.HasSuffix(scf.String(), "etree.Element).FindElementPath")) {
 						for _, a := range c.Call.Args {
-							if k, ok := a.(*ssa.Const); ok && k.Value != nil && k.Value.Kind() == constant.String && strings.HasSuffix(constant.StringVal(k.Value), "X509Certificate") {
+							if path, ok := etreePathConst(a); ok && strings.HasSuffix(path, "X509Certificate") {
 								return true
 							}
 						}
@@ -1194,7 +1337,7 @@ func atomLooksUp(ai *AtomInfo, suffix string) bool {
 	for _, v := range ai.Vals {
 		if c, ok := v.(*ssa.Call); ok {
 			for _, a := range c.Call.Args {
-				if k, ok := a.(*ssa.Const); ok && k.Value != nil && k.Value.Kind() == constant.String && strings.HasSuffix(constant.StringVal(k.Value), suffix) {
+				if path, ok := etreePathConst(a); ok && strings.HasSuffix(path, suffix) {
 					return true
 				}
 			}
@@ -1592,4 +1735,17 @@ func checkNoWaiting(r *Report, p *Prog, fns []*ssa.Function, rule string) {
 	if hits == 0 {
 		r.OK(rule, "consuming paths: no sleep, timer, channel or wait operation", "-", fmt.Sprintf("%d functions scanned", n))
 	}
+}
+
+// phiLeaves: the non-phi values a value may stand for (phi alternatives, nested to a small depth).
+func phiLeaves(v ssa.Value, depth int) []ssa.Value {
+	ph, ok := v.(*ssa.Phi)
+	if !ok || depth > 4 {
+		return []ssa.Value{v}
+	}
+	var out []ssa.Value
+	for _, e := range ph.Edges {
+		out = append(out, phiLeaves(Resolve(e), depth+1)...)
+	}
+	return out
 }
